@@ -148,7 +148,7 @@ DiffDocs ==
 MetaKinds == {"Node", "Way", "Relation", "Changeset"}
 SharedFields == {"ID", "User", "UserID", "Version", "ChangesetID", "Timestamp"}
 WithField(o, f, x) == Obj(o.T, [o.f EXCEPT ![f] = x])
-SharedTriple(f, T1, T2) == <<Full(T1, 1), WithField(Full(T2, 4), f, Full(T1, 1).f[f]), WithField(Full(T1, 6), f, Full(T1, 1).f[f])>>
+SharedTriple(f, Ta, Tb) == <<Full(Ta, 1), WithField(Full(Tb, 4), f, Full(Ta, 1).f[f]), WithField(Full(Ta, 6), f, Full(Ta, 1).f[f])>>
 SharedChoices == {c \in SharedFields \X MetaKinds \X MetaKinds : c[1] \in GoFields(c[2]) /\ c[1] \in GoFields(c[3])}
 SharedFieldDocs ==
   {OsmDocOf(NoHdr, SharedTriple(c[1], c[2], c[3])) : c \in SharedChoices}
